@@ -136,6 +136,10 @@ def w_shipped(job):
         got = "failed to compile but no diagnostic line matches; first errors: " + first_errors(out)
     return dict(status="disagree", id=job["id"], got=got, regex=pass_re)
 
+def has_message(err, msg):
+    """the documented text, not preceded by an identifier character (so "RETURN for ..." is not found inside "CO_RETURN for ...")"""
+    return re.search(r"(?<![A-Za-z0-9_])" + re.escape(msg), err) is not None
+
 def first_errors(err, n=3):
     lines = [l.strip() for l in err.splitlines() if "error" in l]
     return " | ".join(l[:220] for l in lines[:n]) or err.strip()[:300]
@@ -229,6 +233,8 @@ class Engine:
         self.counter = 0
         self.cache = {}             # (program, compiler, std) -> verdict dict
         self.harness_error = False
+        self.shipped_dis = {}
+        self.macro_dis = {}
 
     def log(self, *x):
         if not self.a.quiet:
@@ -303,7 +309,7 @@ class Engine:
         if st == "inconclusive":
             self.inconclusive.append("shipped %s %s c++%d: %s" % (name, cname, std, r["got"]))
         elif st == "disagree":
-            self.write_fail("shipped", std, cname, "fails to compile with a diagnostic matching /%s/" % r["regex"], r["got"], job["text"], ["file=%s" % name])
+            self.shipped_dis.setdefault(name, []).append((std, cname, r, job["text"]))
 
     # ---------------------------------------------------------------- part (b)
     def macro_headers(self):
@@ -341,17 +347,31 @@ class Engine:
         self.nontrivial("macro|%s|%s|%s|%d" % (mode, header, cname, std))
         self.label("macro/defines-attributed", r.get("n", 0))
         if st == "disagree":
+            self.macro_dis.setdefault((mode, re.sub(r":\d+\)", ")", r["got"])), []).append((header, std, cname, r))
+
+    def report_grouped(self):
+        """one violation file per root cause (a shipped file / a set of leaked macros); the other failing cells are listed in it"""
+        for name, cells in sorted(self.shipped_dis.items()):
+            std, cname, r, text = cells[0]
+            also = ["also-failing-cells=" + " ".join("%s/c++%d" % (c, s) for s, c, _, _ in cells[1:])] if len(cells) > 1 else []
+            self.write_fail("shipped", std, cname, "fails to compile with a diagnostic matching /%s/" % r["regex"], r["got"], text, ["file=%s" % name] + also)
+        for (mode, _), cells in sorted(self.macro_dis.items()):
             exp = ("every macro defined by a file under the include root starts with TROMPELOEIL_ (-DTROMPELOEIL_LONG_MACROS)" if mode == "long"
                    else "every documented short macro is defined")
-            self.write_fail("macro", std, cname, exp, r["got"], header + "\n", ["mode=%s" % mode], MARK_HEADER)
+            m = re.search(r"\(([^():]+):\d+\)", cells[0][3]["got"])
+            own = [c for c in cells if m and c[0] == m.group(1)]
+            header, std, cname, r = (own or cells)[0]
+            rest = [c for c in cells if c is not (own or cells)[0]]
+            also = ["also-failing-cells=" + " ".join(sorted({"%s:%s/c++%d" % (h, c, s) for h, s, c, _ in rest}))[:1500]] if rest else []
+            self.write_fail("macro", std, cname, exp, r["got"], header + "\n", ["mode=%s" % mode] + also, MARK_HEADER)
 
     # ---------------------------------------------------------------- part (c)
     def group_plan(self):
         rows = self.rules.ROW_IDS
         if self.tier == "thorough":
-            plan = [("legal", 1200)] + [("row:" + r, 30) for r in rows] + [("free", 400)]
+            plan = [("legal", 1000)] + [("row:" + r, 30) for r in rows] + [("free", 700)]
         else:
-            plan = [("legal", 75)] + [("row:" + r, 2) for r in rows] + [("free", 32)]
+            plan = [("legal", 75)] + [("row:" + r, 3) for r in rows] + [("free", 40)]
         return plan
 
     def hyp_settings(self, n, shrink):
@@ -401,7 +421,7 @@ class Engine:
         exp = "fail-with-one-of: " + " || ".join(msgs)
         if r["rc"] == 0:
             return False, exp, "compiled (exit 0)"
-        if any(m in r["err"] for m in msgs):
+        if any(has_message(r["err"], m) for m in msgs):
             return True, exp, ""
         return False, exp, "failed to compile without the documented message; first errors: " + first_errors(r["err"])
 
@@ -564,14 +584,17 @@ class Engine:
         self.gen.self_check()
         self.pool = ProcessPoolExecutor(max_workers=POOL)
         # PCHs first (the generated part waits for them), then parts (a) and (b) fill the pool meanwhile
-        pch_futs = [(self.submit(j), j, h) for j, h in self.build_pch_jobs()]
-        sj = self.shipped_jobs()
-        mj = self.macro_jobs()
+        pch_futs = [(self.submit(j), j, h) for j, h in self.build_pch_jobs()] if "c" in self.a.parts and not self.a.no_pch else []
+        sj = self.shipped_jobs() if "a" in self.a.parts else []
+        mj = self.macro_jobs() if "b" in self.a.parts else []
         other = [(self.submit(j), j) for j in mj + sj]
-        plan = self.group_plan()
+        plan = self.group_plan() if "c" in self.a.parts else []
+        keep = [x for x in self.a.groups.split(",") if x]
         groups = []
         for idx, (g, n) in enumerate(plan):
-            groups.append((g, n, derive_seed(self.seed, idx + 1)))
+            if keep and g not in keep:
+                continue
+            groups.append((g, self.a.examples or n, derive_seed(self.seed, idx + 1)))
         t1 = time.time()
         collected = [(g, self.collect(g, n, s)) for g, n, s in groups]
         self.log("generated %d programs in %.1fs" % (sum(len(ps) for _, ps in collected), time.time() - t1))
@@ -586,6 +609,7 @@ class Engine:
         for fut, j in other:
             r = fut.result()
             (self.macro_result if j["what"] == "macro" else self.shipped_result)(j, r)
+        self.report_grouped()
         self.log("shipped + macro parts done at %.1fs" % (time.time() - t0))
         # generated disagreements: the first one is shrunk by Hypothesis, further distinct ones are reported as they are
         if dis:
@@ -610,7 +634,7 @@ class Engine:
 
     def sig(self, p, cname, std):
         want, msgs, rows, cat = self.rules.expectation(p)
-        return (cat, tuple(rows), cname, std)
+        return (cat, tuple(rows), cname)
 
     def write_json(self, wall):
         doc = dict(
@@ -713,7 +737,7 @@ class Engine:
                 msgs = [m.strip() for m in exp.split(":", 1)[1].split("||")]
                 if r["rc"] == 0:
                     bad, got = True, "compiled (exit 0)"
-                elif any(m in r["err"] for m in msgs):
+                elif any(has_message(r["err"], m) for m in msgs):
                     bad, got = False, "fails with a documented message"
                 else:
                     bad, got = True, "failed to compile without the documented message; first errors: " + first_errors(r["err"])
@@ -737,10 +761,15 @@ def main(argv):
     ap.add_argument("--tier", default="quick", choices=["quick", "thorough"])
     ap.add_argument("--seed", default="1")
     ap.add_argument("--out", default="")
-    ap.add_argument("--faildir", default=".")
+    ap.add_argument("--faildir", default=os.path.join(os.path.dirname(os.path.dirname(HERE)), "build", "run", "C19"))
     ap.add_argument("--replay")
     ap.add_argument("--quiet", action="store_true")
     ap.add_argument("--verbose", action="store_true")
+    # development / sensitivity switches (bin/check never passes them)
+    ap.add_argument("--parts", default="abc", help="subset of parts to run: a shipped, b macro, c generated")
+    ap.add_argument("--groups", default="", help="comma separated generated groups to keep (legal, free, row:Rxx)")
+    ap.add_argument("--no-pch", action="store_true")
+    ap.add_argument("--examples", type=int, default=0, help="override the number of examples per kept group")
     a, unknown = ap.parse_known_args(argv)
     if a.prop != "C19":
         print("engine K serves property C19 only")
